@@ -60,7 +60,9 @@ Fails(e) == CASE e.op = "gate" -> FailsGate(e)
               [] e.op = "conc_time" -> FailsTime(e)
               [] e.op = "conc_time_batch" -> Chk(\A i \in 1..Len(e.items) : e.items[i].out = "ok" /\ SameCivil(ParseRFC3339(e.items[i].s), e.items[i].t),
                                                  "a concurrently parsed timestamp differs from its sequential value (shared zone cache)")
-              [] e.op = "conc_file" -> Chk(e.out = "ok" /\ e.n = 30, "concurrent ReadFile delivered wrong records")
+              [] e.op = "conc_file" -> Chk(e.out = "ok" /\ e.n = Len(e.inputs), "concurrent ReadFile failed or delivered the wrong number of records")
+                                        \o Chk(e.n # Len(e.inputs) \/ \A i \in 1..Len(e.inputs) : (i % 3 = 1) \/ SameValue(e.inputs[i], e.value.c[i]),
+                                               "a record retained from a concurrent ReadFile (its bank still open) no longer holds what the file contains")
               [] e.op = "race" -> Chk(~e.detected, "the race detector reported a data race")
               [] e.op = "conc_crash" -> <<"the stress process crashed: " \o e.detail>>
               [] OTHER -> <<"unknown event">>
